@@ -6,7 +6,7 @@
        through the contract checkers of Analysis/Pipeline.v. *)
 From Coq Require Import ZArith List Bool.
 From Bluge Require Import Base.Res Base.Corr Base.UTF8 Gen.ParamsAnalysis
-  Analysis.Pipeline Analysis.Tokenizers Analysis.Filters Analysis.Filters2 Analysis.Freq.
+  Analysis.Pipeline Analysis.Tokenizers Analysis.Filters Analysis.Filters2 Analysis.CharFilters Analysis.Freq.
 From Bluge Require Export Analysis.ByteNames.
 Import ListNotations.
 Open Scope Z_scope.
@@ -52,6 +52,9 @@ Inductive acase :=
 | CBigram (clamp : bool) (unigram : bool) (tin tout : tstream)
 | CWidth (tin : tstream) (out : option tstream)
 | CPossessive (tin tout : tstream)
+(* character filters *)
+| CAsciiFold (input : list Z) (out : option (list Z))            (* None: the call panicked *)
+| CZwnj (input out : list Z)
 (* whole analyzers built only from exact components: letter tokenizer + lowercase (simple.go),
    single token (keyword.go) *)
 | CSimple (letters : list (Z * bool)) (lower : list (Z * Z)) (input : list Z) (out : tstream)
@@ -137,6 +140,13 @@ Definition check (c : acase) : bool :=
   | CBigram clamp unigram tin tout => tstream_eqb (bigram_filter unigram clamp tin) tout
   | CWidth tin out => res_matches (width_filter cjk_kana_norm cjk_combine_voiced cjk_combine_half_voiced tin) out
   | CPossessive tin tout => tstream_eqb (possessive_filter tin) tout
+  | CAsciiFold input out =>
+      match ascii_fold input, out with
+      | Ok o, Some o' => zlist_eqb o o'
+      | Panic _, None => true
+      | _, _ => false
+      end
+  | CZwnj input out => zlist_eqb (zwnj_filter input) out
   | CSimple letters lower input out => res_matches (analyze (simple_analyzer letters lower) input) (Some out)
   | CKeywordAn input out => res_matches (analyze keyword_analyzer input) (Some out)
   | CFreq ts tv start out pos =>
